@@ -247,7 +247,10 @@ class Model(object):
         """Behaviour-preserving normal form relative to the reference tree:
         helpers that did not exist there are expanded inline (sa/inline.py),
         then renamed locals are mapped back (sa/alpha.py)."""
-        from . import inline, desugar
+        from . import inline, desugar, funcrename
+        self.func_renamed = {}
+        if not os.environ.get("VERIF_NO_FUNCRENAME"):
+            self.func_renamed = funcrename.restore_names(self)
         self.inlined = inline.expand_new_helpers(self)
         self.desugared = 0
         if not os.environ.get("VERIF_NO_DESUGAR"):
